@@ -7,8 +7,10 @@ from vf.core import D, SECTOR, T, Z, Layer, PatternGen, SparseFile
 
 
 def footer(size: int, data_offset: int, disk_type: int, uid: bytes, legacy: bool = False, orig_size=None,
-           timestamp: int = 0, creator_app: bytes = b"vf  ", creator_os: bytes = b"Wi2k", geometry: int = 0) -> bytes:
-    features = 0 if legacy else 2
+           timestamp: int = 0, creator_app: bytes = b"vf  ", creator_os: bytes = b"Wi2k", geometry: int = 0,
+           temporary: bool = False) -> bytes:
+    # features: bit 1 is reserved and always set by writers of the 512-byte footer, bit 0 marks a temporary disk
+    features = 0 if legacy else (3 if temporary else 2)
     f = struct.pack(">8sIIQI4sI4sQQII", b"conectix", features, 0x00010000, data_offset, timestamp, creator_app,
                     0x00050000, creator_os, size if orig_size is None else orig_size, size, geometry, disk_type)
     body = f + struct.pack(">I", 0) + uid + b"\0" + b"\0" * 427
@@ -36,7 +38,7 @@ def build_fixed(rng, *, nsectors: int, legacy: bool = False, tag: int = 1, kind:
     sf = SparseFile()
     if nsectors:
         sf.put(0, PatternGen(layer, 0, nsectors))
-    sf.put(size, footer(size, 0xFFFFFFFFFFFFFFFF, 2, uid, legacy=legacy, orig_size=orig_size))
+    sf.put(size, footer(size, 0xFFFFFFFFFFFFFFFF, 2, uid, legacy=legacy, orig_size=orig_size, temporary=rng.random() < 0.3))
     meta = {"size": size, "uid": uid.hex(), "legacy": legacy, "metadata_bytes": 512}
     return sf, layer, meta
 
@@ -94,7 +96,7 @@ def build_dynamic(rng, *, block_size: int, nblocks: int, tail_cut_sectors: int =
             pos[j] = top
     uid = uid or bytes(rng.randrange(256) for _ in range(16))
     sf = SparseFile()
-    ft = footer(size, header_off, 3, uid, orig_size=orig_size)
+    ft = footer(size, header_off, 3, uid, orig_size=orig_size, temporary=rng.random() < 0.3)
     sf.put(0, ft)
     dh = struct.pack(">8sQQIIII", b"cxsparse", 0xFFFFFFFFFFFFFFFF, table_off, 0x00010000, max_entries, block_size, 0)
     dh += b"\0" * 16 + struct.pack(">II", 0, 0) + b"\0" * 512 + b"\0" * (8 * 24) + b"\0" * 256
